@@ -642,6 +642,11 @@ func TestVerif_C07(t *testing.T) {
 			}
 			return
 		}
+		// a REQ issued by a subscriber while it is not reading (its buffer is full by now)
+		// must still be answered by its EOSE once it reads again
+		for _, c := range stalled {
+			c.s.Put(&mocrelay.ClientReqMsg{SubscriptionID: "late", ReqFilters: []*mocrelay.ReqFilter{{Kinds: []int64{42}}}})
+		}
 		total := nPub * m
 		// draining subscribers must have everything
 		deadline := time.Now().Add(vk.WaitBound)
@@ -690,6 +695,31 @@ func TestVerif_C07(t *testing.T) {
 			rep.Count("stalled_received", int64(len(c.deliveries())))
 			rep.Count("stalled_dropped", int64(total-len(c.deliveries())))
 		}
+		for _, c := range stalled {
+			gotEOSE := false
+			deadline := time.Now().Add(vk.WaitBound)
+			for !gotEOSE && time.Now().Before(deadline) {
+				select {
+				case m := <-c.replies:
+					if e, is := m.(*mocrelay.ServerEOSEMsg); is && e.SubscriptionID == "late" {
+						gotEOSE = true
+					}
+				case <-time.After(time.Millisecond):
+				}
+			}
+			if !gotEOSE {
+				rep.Violation("backpressure/req-during-stall-without-eose", "a REQ sent while the subscriber was not reading (buffer full) was never answered by EOSE after it resumed reading", map[string]any{"scenario": scenario})
+				return
+			}
+			rep.Count("reqs_during_stall_answered", 1)
+		}
+		w.subs = append(w.subs, func() []*rSub {
+			var l []*rSub
+			for _, c := range stalled {
+				l = append(l, &rSub{conn: c.idx, sub: "late", filters: []*mocrelay.ReqFilter{{Kinds: []int64{42}}}, reqCall: 1, eoseRet: 0, cut: true})
+			}
+			return l
+		}()...)
 		// mark the stalled subscriptions as "may" for the lower bound: only order, duplicates and membership are judged
 		for _, s := range w.subs {
 			for _, c := range stalled {
